@@ -29,9 +29,10 @@ const (
 	kList = iota
 	kDict
 	kSet
+	kMixed // a list whose elements are unorderable, not all strings and not all hashable: ["a", 1, [2]]
 )
 
-var kindName = []string{"list", "dict", "set"}
+var kindName = []string{"list", "dict", "set", "mixedlist"}
 var base = []string{"a", "b", "c"}
 
 // ---- the world ----
@@ -58,12 +59,14 @@ func newWorld(kinds []int, frozen []bool) *world {
 				d.SetKey(starlark.String(e), starlark.MakeInt(j))
 			}
 			v = d
-		default:
+		case kSet:
 			s := starlark.NewSet(4)
 			for _, e := range base {
 				s.Insert(starlark.String(e))
 			}
 			v = s
+		default:
+			v = starlark.NewList([]starlark.Value{starlark.String("a"), starlark.MakeInt(1), starlark.NewList([]starlark.Value{starlark.MakeInt(2)})})
 		}
 		if frozen[i] {
 			v.Freeze()
@@ -231,7 +234,9 @@ var muts = [][]mutDef{
 	},
 }
 
-var hostMuts = [][]string{{"add", "set", "clear"}, {"add", "set", "del", "clear"}, {"add", "del", "clear"}}
+var hostMuts = [][]string{{"add", "set", "clear"}, {"add", "set", "del", "clear"}, {"add", "del", "clear"}, {"add", "set", "clear"}}
+
+func init() { muts = append(muts, muts[kList]) }
 
 func findMut(kind int, name string) mutDef {
 	for _, m := range muts[kind] {
@@ -246,42 +251,64 @@ func findMut(kind int, name string) mutDef {
 type bexpr struct {
 	name  string
 	tmpl  string
-	kinds string // which kinds: l d s
+	kinds string // which kinds: l d s, m = mixed list
 	cb    bool
+	fails bool // the built-in returns an error part-way through (after it has begun to iterate)
 }
 
 var bexprs = []bexpr{
-	{"sorted", "sorted(%c)", "lds", false},
-	{"sorted-key", "sorted(%c, key=%f)", "lds", true},
-	{"list", "list(%c)", "lds", false},
-	{"tuple", "tuple(%c)", "lds", false},
-	{"set", "set(%c)", "lds", false},
-	{"dict", "dict(%c)", "d", false},
-	{"dict-update", "{}.update(%c)", "d", false},
-	{"dict-update-pairs", "{}.update([(x, 1) for x in %c])", "lds", false},
-	{"extend", "[].extend(%c)", "lds", false},
-	{"join", "\",\".join(%c)", "lds", false},
-	{"min", "min(%c)", "lds", false},
-	{"max-key", "max(%c, key=%f)", "lds", true},
-	{"min-key", "min(%c, key=%f)", "lds", true},
-	{"any", "any(%c)", "lds", false},
-	{"all", "all(%c)", "lds", false},
-	{"zip", "zip(%c, %c)", "lds", false},
-	{"enumerate", "enumerate(%c)", "lds", false},
-	{"reversed", "reversed(%c)", "l", false},
-	{"len-list", "len(list(%c))", "lds", false},
-	{"set-union", "set().union(%c)", "lds", false},
-	{"set-update", "set().update(%c)", "lds", false},
-	{"set-issubset", "set().issubset(%c)", "lds", false},
-	{"set-intersection", "set([\"a\"]).intersection(%c)", "lds", false},
-	{"list-plus", "[] + list(%c)", "lds", false},
-	{"in", "\"zz\" in %c", "lds", false},
-	{"dict-items", "%c.items()", "d", false},
-	{"dict-keys", "%c.keys()", "d", false},
-	{"dict-values", "%c.values()", "d", false},
-	{"str", "str(%c)", "lds", false},
-	{"list-index", "%c.index(\"c\")", "l", false},
-	{"eq", "%c == %c", "lds", false},
+	{"sorted", "sorted(%c)", "lds", false, false},
+	{"sorted-key", "sorted(%c, key=%f)", "lds", true, false},
+	{"list", "list(%c)", "lds", false, false},
+	{"tuple", "tuple(%c)", "lds", false, false},
+	{"set", "set(%c)", "lds", false, false},
+	{"dict", "dict(%c)", "d", false, false},
+	{"dict-update", "{}.update(%c)", "d", false, false},
+	{"dict-update-pairs", "{}.update([(x, 1) for x in %c])", "lds", false, false},
+	{"extend", "[].extend(%c)", "lds", false, false},
+	{"join", "\",\".join(%c)", "lds", false, false},
+	{"min", "min(%c)", "lds", false, false},
+	{"max-key", "max(%c, key=%f)", "lds", true, false},
+	{"min-key", "min(%c, key=%f)", "lds", true, false},
+	{"any", "any(%c)", "lds", false, false},
+	{"all", "all(%c)", "lds", false, false},
+	{"zip", "zip(%c, %c)", "lds", false, false},
+	{"enumerate", "enumerate(%c)", "lds", false, false},
+	{"reversed", "reversed(%c)", "l", false, false},
+	{"len-list", "len(list(%c))", "lds", false, false},
+	{"set-union", "set().union(%c)", "lds", false, false},
+	{"set-update", "set().update(%c)", "lds", false, false},
+	{"set-issubset", "set().issubset(%c)", "lds", false, false},
+	{"set-intersection", "set([\"a\"]).intersection(%c)", "lds", false, false},
+	{"list-plus", "[] + list(%c)", "lds", false, false},
+	{"in", "\"zz\" in %c", "lds", false, false},
+	{"dict-items", "%c.items()", "d", false, false},
+	{"dict-keys", "%c.keys()", "d", false, false},
+	{"dict-values", "%c.values()", "d", false, false},
+	{"str", "str(%c)", "lds", false, false},
+	{"list-index", "%c.index(\"c\")", "l", false, false},
+	{"eq", "%c == %c", "lds", false, false},
+	// error paths inside built-ins, on the mixed list ["a", 1, [2]]
+	{"err-sorted", "sorted(%c)", "m", false, true},
+	{"err-sorted-key", "sorted(%c, key=len)", "m", false, true},
+	{"err-min", "min(%c)", "m", false, true},
+	{"err-max", "max(%c)", "m", false, true},
+	{"err-join", "\",\".join(%c)", "m", false, true},
+	{"err-set", "set(%c)", "m", false, true},
+	{"err-dict", "dict(%c)", "m", false, true},
+	{"err-dict-update", "{}.update(%c)", "m", false, true},
+	{"err-dict-pairs", "dict([(x, 1) for x in %c])", "m", false, true},
+	{"err-dictcomp-key", "{x: 1 for x in %c}", "m", false, true},
+	{"err-zip", "zip(%c, 5)", "m", false, true},
+	{"err-set-union", "set().union(%c)", "m", false, true},
+	{"err-set-update", "set().update(%c)", "m", false, true},
+	{"err-set-issubset", "set([7]).issubset(%c)", "m", false, true},
+	{"err-set-intersection", "set([1]).intersection(%c)", "m", false, true},
+	{"err-set-difference", "set([1]).difference(%c)", "m", false, true},
+	{"err-set-symdiff", "set([1]).symmetric_difference(%c)", "m", false, true},
+	{"err-index", "%c.index(3)", "m", false, true},
+	{"err-remove", "list(%c).remove(3)", "m", false, true},
+	{"err-unpack-in-for", "[a for a, b in %c]", "m", false, true},
 }
 
 // ---- paths (terms of C06.Model.prog / hprog) ----
@@ -348,6 +375,8 @@ type emitter struct {
 	nattempt int
 	expects  []expect
 	tags     map[string]bool
+	cont     [][]string // expected content: the initial elements plus the markers of accepted additions
+	mustFail bool       // the path reaches a mutation that must be refused (which aborts the program)
 }
 
 func assignIDs(stmts []Stmt, next *int) {
@@ -535,6 +564,7 @@ func (e *emitter) step(s Stmt, p *path, elem int) int {
 		m := map[string]string{"add": fmt.Sprintf("MAppend %d", z), "set": fmt.Sprintf("MSetIndex 0 %d", z), "del": "MPop", "clear": "MClear"}[s.Mut]
 		if !locked {
 			e.len[s.C]++ // only "add" is generated when not locked
+			e.cont[s.C] = append(e.cont[s.C], fmt.Sprintf("m%d", e.nattempt))
 		}
 		p.items = append(p.items, item{kind: "builtin", h: &hpath{items: []hitem{{kind: "attempt", s: fmt.Sprintf("HAttempt %d (%s)", s.C, m)}}, exit: "ORet"}})
 		e.tags["attempt:"+kindName[kind]+":"+s.Mut] = true
@@ -550,9 +580,11 @@ func (e *emitter) step(s Stmt, p *path, elem int) int {
 		e.tags["mutate:"+kindName[kind]+":"+s.Mut+":"+map[bool]string{true: "locked", false: "free"}[locked]] = true
 		if locked {
 			p.exit = "OErr"
+			e.mustFail = true
 			return cErr
 		}
 		e.len[s.C]++
+		e.cont[s.C] = append(e.cont[s.C], fmt.Sprintf("M%d", s.ID))
 		return cNext
 	case "fail":
 		p.exit = "OErr"
@@ -682,6 +714,10 @@ func (e *emitter) step(s Stmt, p *path, elem int) int {
 		h := &hpath{exit: "ORet"}
 		h.items = append(h.items, hitem{kind: "iterdefer", s: fmt.Sprintf("HIterDefer %d", s.C)})
 		ctl := cNext
+		if be.fails {
+			ctl = cErr
+			h.exit = "OErr"
+		}
 		if be.cb {
 			e.lock[s.C]++
 			for i := 0; i < e.len[s.C]; i++ {
@@ -890,11 +926,19 @@ func (r *runner) predeclared() starlark.StringDict {
 	}
 }
 
-func runScenario(src string, kinds []int, frozen []bool, limit uint64) (res result, ok bool) {
+var againProg *starlark.Program
+
+func compile(src string) (*starlark.Program, error) {
+	names := (&runner{}).predeclared()
+	_, prog, err := starlark.SourceProgramOptions(opts, "s.star", src, names.Has)
+	return prog, err
+}
+
+func runScenario(prog *starlark.Program, kinds []int, frozen []bool, limit uint64) (res result, ok bool) {
 	w := newWorld(kinds, frozen)
 	r := &runner{w: w}
 	th := &starlark.Thread{}
-	globals, err := starlark.ExecFileOptions(opts, th, "s.star", src, r.predeclared())
+	globals, err := prog.Init(th, r.predeclared())
 	if err != nil {
 		res.Outcome = "static"
 		res.Msg = err.Error()
@@ -953,7 +997,10 @@ func runScenario(src string, kinds []int, frozen []bool, limit uint64) (res resu
 				res.RerunOK = false
 			}
 		}()
-		again, err := starlark.ExecFileOptions(opts, th, "again.star", "def again(*cs):\n    return [[x for x in c] for c in cs]\n", nil)
+		if againProg == nil {
+			_, againProg, _ = starlark.SourceProgramOptions(opts, "again.star", "def again(*cs):\n    return [[x for x in c] for c in cs]\n", func(string) bool { return false })
+		}
+		again, err := againProg.Init(th, nil)
 		if err == nil {
 			_, err = starlark.Call(th, again["again"], starlark.Tuple(w.colls), nil)
 		}
@@ -972,6 +1019,8 @@ type line struct {
 	Kinds   []int    `json:"kinds"`
 	Frozen  []bool   `json:"frozen"`
 	Expects []expect `json:"expects,omitempty"`
+	Expected [][]string `json:"expected,omitempty"`
+	MustFail bool     `json:"must_fail,omitempty"`
 	Limit   uint64   `json:"limit,omitempty"`
 	Res     *result  `json:"res,omitempty"`
 	Viol    string   `json:"viol,omitempty"`
@@ -1025,10 +1074,23 @@ type scenario struct {
 	body   []Stmt
 }
 
-func build(sc scenario) (src, coq string, expects []expect, tags []string) {
+type built struct {
+	src, coq string
+	expects  []expect
+	tags     []string
+	cont     [][]string
+	mustFail bool
+}
+
+func build(sc scenario) built {
 	e := &emitter{kinds: sc.kinds, frozen: sc.frozen, len: make([]int, len(sc.kinds)), lock: make([]int, len(sc.kinds)), tags: map[string]bool{}}
 	for i := range e.len {
 		e.len[i] = len(base)
+		if sc.kinds[i] == kMixed {
+			e.cont = append(e.cont, []string{"a", "1", "[2]"})
+		} else {
+			e.cont = append(e.cont, append([]string{}, base...))
+		}
 	}
 	next := 0
 	assignIDs(sc.body, &next)
@@ -1049,11 +1111,12 @@ func build(sc scenario) (src, coq string, expects []expect, tags []string) {
 	var defs, body strings.Builder
 	e.defs(sc.body, &defs)
 	e.render(sc.body, "    ", &body, "")
-	src = "def main(" + strings.Join(params, ", ") + "):\n" + defs.String() + body.String() + "    return 0\n"
+	src := "def main(" + strings.Join(params, ", ") + "):\n" + defs.String() + body.String() + "    return 0\n"
+	var tags []string
 	for t := range e.tags {
 		tags = append(tags, t)
 	}
-	return src, p.coq(), e.expects, tags
+	return built{src, p.coq(), e.expects, tags, e.cont, e.mustFail}
 }
 
 func main() {
@@ -1158,6 +1221,16 @@ func main() {
 		// frozen collection: iteration does not count, mutation always refused
 		add("frozen:"+kn, ks, []bool{true, false}, Stmt{K: "for", C: 0, Body: []Stmt{{K: "attempt", C: 0, Mut: "add"}, {K: "attempt", C: 1, Mut: "add"}}}, Stmt{K: "attempt", C: 0, Mut: "add"}, Stmt{K: "unpack", C: 0, N: 2})
 	}
+	// error paths inside built-ins (after they have begun to iterate), alone and inside a loop over the same list
+	for _, be := range bexprs {
+		if !strings.Contains(be.kinds, "m") {
+			continue
+		}
+		ks := []int{kMixed, kList}
+		add("builtin-error:"+be.name, ks, nil, Stmt{K: "builtin", C: 0, Name: be.name})
+		add("builtin-error-in-loop:"+be.name, ks, nil, Stmt{K: "for", C: 0, Body: []Stmt{{K: "attempt", C: 0, Mut: "add"}, {K: "builtin", C: 0, Name: be.name}}})
+		add("builtin-error-in-call:"+be.name, ks, nil, Stmt{K: "for", C: 1, Body: []Stmt{{K: "call", Body: []Stmt{{K: "builtin", C: 0, Name: be.name}}}}})
+	}
 	// random compositions
 	var gen func(r *hx.Rand, depth int, inLoop bool, nc int) []Stmt
 	gen = func(r *hx.Rand, depth int, inLoop bool, nc int) []Stmt {
@@ -1197,14 +1270,32 @@ func main() {
 	}
 	// run
 	for i, sc := range scs {
-		src, coq, expects, tags := build(sc)
-		res, ok := runScenario(src, sc.kinds, sc.frozen, 0)
+		b := build(sc)
+		src, coq, expects, tags := b.src, b.coq, b.expects, b.tags
 		id := fmt.Sprintf("s%d", i)
+		prog, cerr := compile(src)
+		if cerr != nil {
+			hx.Emit(line{Kind: "static-error", ID: id, Family: sc.family, Src: src, Kinds: sc.kinds, Frozen: sc.frozen, Res: &result{Msg: cerr.Error()}})
+			continue
+		}
+		res, ok := runScenario(prog, sc.kinds, sc.frozen, 0)
 		if !ok {
 			hx.Emit(line{Kind: "static-error", ID: id, Family: sc.family, Src: src, Kinds: sc.kinds, Frozen: sc.frozen, Res: &res})
 			continue
 		}
 		viol := oracle(res, sc.frozen, expects, true)
+		if viol == "" {
+			// the collections hold exactly their initial elements plus the accepted additions:
+			// nothing that had to be refused has left a trace
+			for ci := range sc.kinds {
+				if !same(res.Content[ci], b.cont[ci]) {
+					viol = fmt.Sprintf("collection %d holds %v, expected %v (a mutation during iteration changed it, or one outside was lost)", ci, res.Content[ci], b.cont[ci])
+				}
+			}
+			if b.mustFail && res.Outcome != "err" {
+				viol = fmt.Sprintf("a mutation during iteration had to fail but the call ended with %q", res.Outcome)
+			}
+		}
 		vkey := sc.family
 		if sc.family == "random" {
 			// name the suspicious constructs present, so that different defects get different keys
@@ -1220,17 +1311,17 @@ func main() {
 			}
 			vkey = "random:" + strings.Join(sus, "+")
 		}
-		hx.Emit(line{Kind: "scenario", ID: id, Family: sc.family, Tags: tags, Src: src, Coq: coq, Kinds: sc.kinds, Frozen: sc.frozen, Expects: expects, Res: &res, Viol: viol, VKey: vkey})
+		hx.Emit(line{Kind: "scenario", ID: id, Family: sc.family, Tags: tags, Src: src, Coq: coq, Kinds: sc.kinds, Frozen: sc.frozen, Expects: expects, Expected: b.cont, MustFail: b.mustFail, Res: &res, Viol: viol, VKey: vkey})
 		// step-limit cancellation at step indices of this call
 		T := res.Steps
-		if T == 0 {
+		if T == 0 || res.Outcome == "cancelled" || T > 20000 {
 			continue
 		}
 		for n := uint64(1); n <= T; n++ {
 			if *cancelEvery > 1 && !(n <= 2 || n == T || int((n+uint64(i))%uint64(*cancelEvery)) == 0) {
 				continue
 			}
-			r2, ok := runScenario(src, sc.kinds, sc.frozen, n)
+			r2, ok := runScenario(prog, sc.kinds, sc.frozen, n)
 			if !ok {
 				continue
 			}
